@@ -119,10 +119,19 @@ fn chunk_of(v: &Value) -> Chunk {
 fn scratchpad_of(v: &Value) -> Scratchpad {
     let owner = sk(v["owner"].as_u64().unwrap());
     let base = Scratchpad::new(owner.public_key(), v["enc"].as_u64().unwrap());
-    // the fields are private: set them through the type's own Deserialize impl
-    let mut j = serde_json::to_value(&base).expect("scratchpad to json");
     let data = payload(&v["data"]);
     let counter = v["counter"].as_u64().unwrap();
+    if v.get("native").is_some() {
+        // only public, serde-free API: counter by repeated increment, data through update_and_sign
+        // (the ciphertext is randomised by blsttc, so the bytes differ from run to run)
+        let mut sp = base;
+        for _ in 1..counter { sp.increment(); }
+        if counter > 0 { sp.update_and_sign(Bytes::from(data), &owner); }
+        assert_eq!(sp.count(), counter, "native scratchpad counter");
+        return sp;
+    }
+    // the fields are private: set them through the type's own Deserialize impl
+    let mut j = serde_json::to_value(&base).expect("scratchpad to json");
     j["encrypted_data"] = json!(data);
     j["counter"] = json!(counter);
     let signer = match v["sig"].as_str().unwrap() {
@@ -135,7 +144,13 @@ fn scratchpad_of(v: &Value) -> Scratchpad {
         msg.extend(XorName::from_content(&data).to_vec());
         j["signature"] = serde_json::to_value(s.sign(&msg)).unwrap();
     }
-    serde_json::from_value(j).expect("scratchpad from json")
+    let sp: Scratchpad = serde_json::from_value(j).expect("scratchpad from json");
+    // the value read through the type's own Deserialize must carry what was put in
+    if sp.count() != counter || sp.data_encoding() != v["enc"].as_u64().unwrap() || sp.encrypted_data().as_ref() != data.as_slice() {
+        panic!("LOSSY: a scratchpad read through its Deserialize impl lost a field: counter {} -> {}, encoding {} -> {}, data {} -> {} bytes",
+               counter, sp.count(), v["enc"], sp.data_encoding(), data.len(), sp.encrypted_data().len());
+    }
+    sp
 }
 
 fn transaction_of(v: &Value) -> Transaction {
